@@ -26,6 +26,7 @@ import (
 	"os/exec"
 	"path/filepath"
 	"strings"
+	"time"
 
 	"github.com/notaryproject/notation-go/internal/io"
 	"github.com/notaryproject/notation-go/internal/slices"
@@ -36,6 +37,11 @@ import (
 
 // maxPluginOutputSize is the maximum size of the plugin output.
 const maxPluginOutputSize = 64 * 1024 * 1024 // 64 MiB
+
+// pluginWaitDelay bounds how long a plugin call keeps waiting, once its context
+// is done or the plugin process has exited, for the plugin's output pipes to
+// be closed (they stay open while any descendant process still holds them).
+const pluginWaitDelay = 5 * time.Second
 
 var executor commander = &execCommander{} // for unit test
 
@@ -230,6 +236,7 @@ func (c execCommander) Output(ctx context.Context, name string, command plugin.C
 	// bytes written with the expected length of the bytes.
 	cmd.Stderr = io.LimitWriter(&stderr, maxPluginOutputSize)
 	cmd.Stdout = io.LimitWriter(&stdout, maxPluginOutputSize)
+	cmd.WaitDelay = pluginWaitDelay
 	err := cmd.Run()
 	if err != nil {
 		if errors.Is(ctx.Err(), context.DeadlineExceeded) {
